@@ -60,7 +60,8 @@ Segs == <<
   Seg("open", "p", "<p k=l\n m=n\n>", <<A("k", 3, "l", 5), A("m", 8, "n", 10)>>),      \* a tag written over several lines, unquoted values end the lines
   Seg("open", "a", "<a x=y\r\nz>", <<A("x", 3, "y", 5), A("z", 8, NONE, 0)>>),
   Seg("open", "p", "<p class={s  tu}>", <<A("class", 3, "{s  tu}", 9)>>),                   \* class names inside an expression value
-  Seg("self", "b", "<b id=a class={ s t }/>", <<A("id", 3, "a", 6), A("class", 8, "{ s t }", 14)>>) >>
+  Seg("self", "b", "<b id=a class={ s t }/>", <<A("id", 3, "a", 6), A("class", 8, "{ s t }", 14)>>),
+  Seg("open", "a", "<a class=\"x\ty\n z\">", <<A("class", 3, "\"x\ty\n z\"", 9)>>) >>                 \* class names separated by a tab and a line break
 
 (* generated families: "<" name attribute-part end, script / style with a body and their closing tag, opaque sections *)
 GenAttrs == << [txt |-> "", attrs |-> <<>>],
@@ -69,16 +70,18 @@ GenAttrs == << [txt |-> "", attrs |-> <<>>],
                [txt |-> " x=\"it's\" y", attrs |-> <<A("x", 1, "\"it's\"", 3), A("y", 10, NONE, 0)>>],      \* the other kind of quote inside a value
                [txt |-> "\tw v='\"'", attrs |-> <<A("w", 1, NONE, 0), A("v", 3, "'\"'", 5)>>],              \* a tab before a boolean attribute
                [txt |-> " t={a>b}", attrs |-> <<A("t", 1, "{a>b}", 3)>>],
-               [txt |-> "\n  r=s\n", attrs |-> <<A("r", 3, "s", 5)>>] >>
+               [txt |-> "\n  r=s\n", attrs |-> <<A("r", 3, "s", 5)>>],
+               [txt |-> " h=a=b&c=d", attrs |-> <<A("h", 1, "a=b&c=d", 3)>>] >>                                  \* "=" inside an unquoted value
 GenBodies == <<"", "a<b", "x</", "i<", "</p>", "<!--", "if(a<b)\"</x>\"">>
 GenOpaques == << <<"<!--", "-->">>, <<"<![CDATA[", "]]>">>, <<"<?", "?>">> >>
-GenOBodies == <<" <a> ", "", "-", "]", "a[0]]", " x --", "?", ">", "<b>">>
+GenOBodies == <<" <a> ", "", "-", "]", "a[0]]", " x --", "?", ">", "<b>", " e \"-->]]>?><b>\" ">>   \* 10: every closer inside a quoted string
 SpecialNames == {"script", "style"}
 VoidNames == {"img", "meta", "link", "br", "base", "hr", "area", "wbr", "col", "embed", "input", "param", "source", "track"}
 ShiftAttrs(attrs, by) == [k \in 1..Len(attrs) |-> [attrs[k] EXCEPT !.noff = @ + by, !.voff = IF attrs[k].v = NONE THEN 0 ELSE @ + by]]
 MkTag(n, ai, e, kind) == Seg(kind, n, "<" \o n \o GenAttrs[ai].txt \o e, ShiftAttrs(GenAttrs[ai].attrs, 1 + Len(n)))
 MkSpecial(n, ai, bi) == LET o == MkTag(n, ai, ">", "special") IN [o EXCEPT !.txt = @ \o GenBodies[bi] \o "</" \o n \o ">", !.body = Len(o.txt)]
-MkOpaque(oi, bi) == Seg("opaque", "", GenOpaques[oi][1] \o GenOBodies[bi] \o GenOpaques[oi][2], <<>>)
+\* only a processing instruction skips quoted strings: body 10 is used as it is there, and without its string elsewhere
+MkOpaque(oi, bi) == Seg("opaque", "", GenOpaques[oi][1] \o (IF bi = 10 /\ oi # 3 THEN " e " ELSE GenOBodies[bi]) \o GenOpaques[oi][2], <<>>)
 
 VARIABLES doc, xml, elems, evs, open, nseg
 vars == <<doc, xml, elems, evs, open, nseg>>
